@@ -21,7 +21,7 @@ def model_check(chk, quick):
         cfg = write_cfg(os.path.join(chk.wd, "dens_%s_dev.cfg" % alg),
                         constants=dict(M=3, Alg='"%s"' % alg, ReportEmpty=False),
                         invariants=["Untouched", "CopiedFromPopulated", "CountOK"], properties=["Terminates"])
-        tlc_check("DensMinHash", cfg, chk.wd, workers=2, timeout=300, expect_violation="Terminates")
+        tlc_check("DensMinHash", cfg, chk.wd, workers=2, timeout=1500, expect_violation="Terminates")
     chk.cov.setdefault("layer_b", {})["DensMinHash"] = dict(distinct_states=tot, deviations_refuted=["ReportEmpty=FALSE (opt, rev)"])
     log("[%s] DensMinHash.tla: %d distinct states, safety + termination hold from every occupancy pattern; "
         "pre-repair deviation refuted" % (chk.pid, tot))
